@@ -369,5 +369,18 @@ def r16_11(ctx):
         raise AnalysisError(f"only {n} assignments to the value text found in _load_config")
 
 
+def r16_12(ctx):
+    """R16.12 what Save writes can be read back as it was written, entry by entry: (a) every line shape of the writer, also with an empty
+    value, is accepted by the reader regexes (C02 R02.1) - a `CONFIG_X=` line that is dropped as malformed leaves X without a baseline
+    and hands its `# default:` marker to the next entry; (b) the tree walk of the writer descends into every node (C07 R07.9a) - an
+    option below a hidden menu still has a value and a baseline; (c) resetting one member of a choice resets the choice as a whole
+    (C05 R05.4) - a half-reset choice is written with mixed markers that the reload normalises away."""
+    from . import c02, c05, c07
+    from .common import delegate
+    delegate(ctx, c02.r02_1, lambda c: 'line shape' in c)
+    delegate(ctx, c07.r07_9, lambda c: '_config_contents' in c)
+    delegate(ctx, c05.r05_4, lambda c: '_restore_default' in c)
+
+
 def rules():
-    return [("R16.11", r16_11, 5), ("R16.10", r16_10, 2), ("R16.9", r16_9, 2), ("R16.8", r16_8, 2), ("R16.7", r16_7, 3), ("R16.1", r16_1, 2), ("R16.2", r16_2, 11), ("R16.3", r16_3, 3), ("R16.4", r16_4, 2), ("R16.5", r16_5, 6), ("R16.6", r16_6, 4)]
+    return [("R16.12", r16_12, 8), ("R16.11", r16_11, 5), ("R16.10", r16_10, 2), ("R16.9", r16_9, 2), ("R16.8", r16_8, 2), ("R16.7", r16_7, 3), ("R16.1", r16_1, 2), ("R16.2", r16_2, 11), ("R16.3", r16_3, 3), ("R16.4", r16_4, 2), ("R16.5", r16_5, 6), ("R16.6", r16_6, 4)]
